@@ -261,7 +261,10 @@ func c10Table(run *hx.Run, o *hx.Oracle, path string, db *sqlittle.DB, low *sdb.
 	} else if wantAlias != "" {
 		run.See("feature", "rowid-alias")
 		// confirm by data that SQLite really treats it as the rowid
-		if r, err := o.Query(path, fmt.Sprintf("SELECT count(*) FROM %s WHERE %s IS NOT rowid", hx.QuoteIdent(t.Name), hx.QuoteIdent(wantAlias))); err == nil && r[0][0].(int64) != 0 {
+		// (through a rowid keyword that no real column of the table shadows)
+		if rn := t.RowidName(); rn == "" {
+			run.Count("alias_tables_with_all_rowid_names_shadowed", 1)
+		} else if r, err := o.Query(path, fmt.Sprintf("SELECT count(*) FROM %s WHERE %s IS NOT %s", hx.QuoteIdent(t.Name), hx.QuoteIdent(wantAlias), rn)); err == nil && r[0][0].(int64) != 0 {
 			run.Inconclusive("alias derivation from pragmas disagrees with data for " + t.Name)
 		}
 	}
@@ -355,12 +358,14 @@ func c10Table(run *hx.Run, o *hx.Oracle, path string, db *sqlittle.DB, low *sdb.
 		}
 	}
 	// behavioural check of the appended key columns and of index order
-	if t.Count != 0 {
+	rn := t.RowidName()
+	if t.Count != 0 && (t.WR != 0 || rn != "") {
 		cols := names
 		sel := selectList(cols)
 		if t.WR == 0 {
-			cols = append([]string{"rowid"}, cols...)
-			sel = "rowid, " + sel
+			// the rowid through a keyword that no real column shadows, in the query and in ORDER BY alike
+			cols = append([]string{rn}, cols...)
+			sel = rn + ", " + sel
 		}
 		for _, si := range s.Indexes {
 			ix := byName[strings.ToLower(si.Index)]
@@ -376,7 +381,7 @@ func c10Table(run *hx.Run, o *hx.Oracle, path string, db *sqlittle.DB, low *sdb.
 			if hasExpr {
 				continue
 			}
-			order, err := hx.OrderByIndex(ix, hx.GenIndexMeta{})
+			order, err := hx.OrderByIndex(ix, hx.GenIndexMeta{}, rn)
 			if err != nil {
 				continue
 			}
